@@ -118,7 +118,8 @@ func c16Shapes(tier string) map[string]func() any {
 		"shell_meta":               func() any { return "$(x ${ `" },
 		"yaml_date":                func() any { return time.Date(2001, 12, 14, 0, 0, 0, 0, time.UTC) }, // an unquoted 2001-12-14 decodes to a time value
 		"for_var_and_empty_matrix": func() any { return map[string]any{"var": "X", "matrix": map[string]any{}} },
-		"list_opt_o":               func() any { return []any{"errexit", "o"} }, // set: / shopt: entries that are bare option letters
+		"ref_to_string_map":        func() any { return map[string]any{"ref": `split "/" "a/b"`} }, // a map[string]string travelling through variables
+		"list_opt_o":               func() any { return []any{"errexit", "o"} },                    // set: / shopt: entries that are bare option letters
 	}
 	for _, k := range c16Known {
 		k := k
